@@ -1,0 +1,10 @@
+//go:build verif
+
+// Contracts for the verifier in /verif (comment-only; compiled only with -tags verif, adds no code).
+package validator
+
+// ---- C15: a dynamic block of a type satisfies that type's minimum - but only in a body whose schema turns
+// ---- dynamic blocks on, only for that very type, and only if at least one was written.
+//@ contract validator.hasDynamicBlockInBody (bodySchema, dynamicBlocks, blockName) (result)
+//@   requires bodySchema != nil
+//@   ensures [C15,name:dynamic-block-of-that-type-in-a-body-that-allows-them] result == (bodySchema.Extensions != nil && bodySchema.Extensions.DynamicBlocks && haskey(dynamicBlocks, blockName) && dynamicBlocks[blockName] > 0)
